@@ -10,3 +10,7 @@ claim("C17",
  "For every file name of length 0..6 (8 thorough) over all 256 byte values the solver shows on every path of the real sanitizeFileName that an accepted name is [A-Za-z0-9_]*.gr (only .gr in empty-only mode) and that acceptance depends on the name only; for names of 0..5 (6) bytes and the no-argument form, save() and load() run against a file-system model create/read only such files, leave planted foreign files (../secret.gr, sub/x.gr, notes.txt) untouched, and a rejected request changes nothing; for all 16 configurations exec/run/load/save are registered exactly when allowed. Counterexamples are replayed natively inside a chroot scratch tree.",
  "Relative to the file-system model (DESIGN §2.7); image.save's constant grol.png and callbacks built on unencoded libraries are outside the claim.",
  "DESIGN.md §4 C17")
+claim("C12",
+ "For every triple of values drawn from the kind vectors listed in the evidence (all 125 triples over Integer/Float/Boolean/Nil/String, all ordered pairs over 13 kinds including small arrays, maps, functions, errors, extensions, quotes and macros) and for ALL scalar contents (every int64, every float64 bit pattern, strings of 0..2 arbitrary bytes), the solver shows on every path of the real object.Cmp/Equals: result in {-1,0,1}, reflexive, antisymmetric, transitive (<= and equivalence), == symmetric, transitive, implies order-equivalence, holds for a copy, and no panic. Floating-point queries are discharged in z3's FP theory (no reals).",
+ "Containers limited to 2 elements / 1 pair without nesting; the comparison operators of the evaluator call the same Cmp (C01/C07 harnesses exercise them).",
+ "DESIGN.md §4 C12")
